@@ -78,6 +78,14 @@ type Store struct {
 	True    *Term
 	False   *Term
 	NoSimp  bool
+	facts   map[int][2]uint64
+	known   map[int]uint64
+	ivMemo  map[int][2]uint64
+	// RemSplit: x % c with x known below 3c becomes compare-and-subtract
+	RemSplit bool
+	// Narrow: additions, subtractions, comparisons and selections over
+	// values the interval analysis bounds are done in 8/16/32 bits
+	Narrow bool
 }
 
 func NewStore() *Store {
@@ -260,6 +268,11 @@ func (s *Store) Ite(c, a, b *Term) *Term {
 	if a.Op == OpIte && a.Args[0] == c {
 		return s.Ite(c, a.Args[1], b)
 	}
+	if a.W > 8 && !s.NoSimp && s.Narrow && !(a.IsConst() && b.IsConst()) {
+		if na, nb, ok := s.narrowPair(a, b); ok {
+			return s.ZExt(s.Ite(c, na, nb), a.W)
+		}
+	}
 	return s.mk(OpIte, a.W, []*Term{c, a, b}, 0, "")
 }
 
@@ -301,6 +314,11 @@ func (s *Store) Eq(a, b *Term) *Term {
 			return s.False
 		}
 		return s.Eq(x, s.BV(b.Val, x.W))
+	}
+	if a.W > 8 && !s.NoSimp {
+		if na, nb, ok := s.narrowPair(a, b); ok {
+			return s.Eq(na, nb)
+		}
 	}
 	if a.ID > b.ID {
 		a, b = b, a
@@ -390,6 +408,11 @@ func (s *Store) Bin(op Op, a, b *Term) *Term {
 			return s.BV(v, w)
 		}
 	}
+	if !s.NoSimp && (op == OpAdd || op == OpSub) && !(a.IsConst() && a.Val == 0) && !(b.IsConst() && b.Val == 0) && a != b {
+		if n := s.narrowBin(op, a, b); n != nil {
+			return n
+		}
+	}
 	if !s.NoSimp {
 		switch op {
 		case OpAdd:
@@ -454,10 +477,21 @@ func (s *Store) Bin(op Op, a, b *Term) *Term {
 			if a.Op == OpURem && a.Args[1] == b {
 				return a
 			}
-			// x % m where x is known < m (zero extension of a narrower value, or constant-bounded ite)
-			if b.IsConst() {
-				if ub, ok := s.UpperBound(a); ok && ub < b.Val {
-					return a
+			// x % m where x is known < m, < 2m or < 3m
+			if b.IsConst() && b.Val > 0 {
+				if ub, ok := s.UpperBound(a); ok {
+					if ub < b.Val {
+						return a
+					}
+					if s.RemSplit && b.Val < (uint64(1)<<62) && b.Val&(b.Val-1) != 0 {
+						if ub < 2*b.Val {
+							return s.bounded(s.Ite(s.Cmp(OpULe, b, a), s.remSub(a, b), a), b.Val-1)
+						}
+						if ub < 3*b.Val {
+							b2 := s.BV(2*b.Val, w)
+							return s.bounded(s.Ite(s.Cmp(OpULe, b2, a), s.remSub(a, b2), s.Ite(s.Cmp(OpULe, b, a), s.remSub(a, b), a)), b.Val-1)
+						}
+					}
 				}
 			}
 		case OpUDiv:
@@ -477,55 +511,259 @@ func (s *Store) Bin(op Op, a, b *Term) *Term {
 	return s.mk(op, w, []*Term{a, b}, 0, "")
 }
 
-// UpperBound returns a cheap syntactic unsigned upper bound of a term.
-func (s *Store) UpperBound(t *Term) (uint64, bool) {
-	return s.ub(t, 6)
+// AssumeRange records a fact lo <= v <= hi about a variable that holds in
+// every query of this store (prologue assumptions of a harness). It is used
+// by the interval analysis behind UpperBound.
+func (s *Store) AssumeRange(v *Term, lo, hi uint64) {
+	if v.Op != OpVar || v.W == 0 {
+		return
+	}
+	if s.facts == nil {
+		s.facts = map[int][2]uint64{}
+	}
+	cur, ok := s.facts[v.ID]
+	if !ok {
+		cur = [2]uint64{0, mask(v.W)}
+	}
+	if lo > cur[0] {
+		cur[0] = lo
+	}
+	if hi < cur[1] {
+		cur[1] = hi
+	}
+	s.facts[v.ID] = cur
+	s.ivMemo = nil
 }
 
-func (s *Store) ub(t *Term, depth int) (uint64, bool) {
-	if depth == 0 {
-		return 0, false
-	}
-	switch t.Op {
-	case OpConst:
-		return t.Val, true
-	case OpZExt:
-		if u, ok := s.ub(t.Args[0], depth-1); ok {
-			return u, true
+// NoteAssumption extracts range facts from an assumed formula of the shapes
+// var < c, var <= c, c <= var, c < var (and conjunctions of them).
+func (s *Store) NoteAssumption(c *Term) {
+	switch c.Op {
+	case OpAnd:
+		for _, a := range c.Args {
+			s.NoteAssumption(a)
 		}
-		return mask(t.Args[0].W), true
-	case OpURem:
-		if t.Args[1].IsConst() && t.Args[1].Val > 0 {
-			return t.Args[1].Val - 1, true
+	case OpULt:
+		x, y := c.Args[0], c.Args[1]
+		if x.Op == OpVar && y.IsConst() && y.Val > 0 {
+			s.AssumeRange(x, 0, y.Val-1)
+		} else if y.Op == OpVar && x.IsConst() && x.Val < mask(y.W) {
+			s.AssumeRange(y, x.Val+1, mask(y.W))
 		}
-	case OpIte:
-		a, ok1 := s.ub(t.Args[1], depth-1)
-		b, ok2 := s.ub(t.Args[2], depth-1)
-		if ok1 && ok2 {
-			if a > b {
-				return a, true
+	case OpULe:
+		x, y := c.Args[0], c.Args[1]
+		if x.Op == OpVar && y.IsConst() {
+			s.AssumeRange(x, 0, y.Val)
+		} else if y.Op == OpVar && x.IsConst() {
+			s.AssumeRange(y, x.Val, mask(y.W))
+		}
+	case OpNot:
+		// not (c <= var)  ==  var < c ; not (var < c) == c <= var
+		in := c.Args[0]
+		switch in.Op {
+		case OpULe:
+			x, y := in.Args[0], in.Args[1]
+			if y.Op == OpVar && x.IsConst() && x.Val > 0 {
+				s.AssumeRange(y, 0, x.Val-1)
+			} else if x.Op == OpVar && y.IsConst() && y.Val < mask(x.W) {
+				s.AssumeRange(x, y.Val+1, mask(x.W))
 			}
-			return b, true
+		case OpULt:
+			x, y := in.Args[0], in.Args[1]
+			if x.Op == OpVar && y.IsConst() {
+				s.AssumeRange(x, y.Val, mask(x.W))
+			} else if y.Op == OpVar && x.IsConst() {
+				s.AssumeRange(y, 0, x.Val)
+			}
 		}
-	case OpBAnd:
-		if t.Args[1].IsConst() {
-			return t.Args[1].Val, true
+	case OpEq:
+		x, y := c.Args[0], c.Args[1]
+		if x.Op == OpVar && y.IsConst() && x.W > 0 {
+			s.AssumeRange(x, y.Val, y.Val)
+		} else if y.Op == OpVar && x.IsConst() && y.W > 0 {
+			s.AssumeRange(y, x.Val, x.Val)
 		}
-		if t.Args[0].IsConst() {
-			return t.Args[0].Val, true
+	}
+}
+
+// UpperBound returns an unsigned upper bound of a term from the interval
+// analysis (sound under the recorded range facts).
+func (s *Store) UpperBound(t *Term) (uint64, bool) {
+	iv := s.interval(t)
+	if iv[1] == mask(t.W) {
+		return iv[1], t.W < 64 // a narrow type's mask is still a real bound
+	}
+	return iv[1], true
+}
+
+// Interval returns [lo, hi] with lo <= t <= hi (unsigned).
+func (s *Store) Interval(t *Term) (uint64, uint64) {
+	iv := s.interval(t)
+	return iv[0], iv[1]
+}
+
+func (s *Store) interval(t *Term) [2]uint64 {
+	if t.W == 0 {
+		return [2]uint64{0, 1}
+	}
+	if t.Op == OpConst {
+		return [2]uint64{t.Val, t.Val}
+	}
+	if s.ivMemo == nil {
+		s.ivMemo = map[int][2]uint64{}
+	}
+	if iv, ok := s.ivMemo[t.ID]; ok {
+		return iv
+	}
+	full := [2]uint64{0, mask(t.W)}
+	res := full
+	m := mask(t.W)
+	switch t.Op {
+	case OpVar:
+		if f, ok := s.facts[t.ID]; ok {
+			res = f
 		}
-	case OpLShr:
-		if t.Args[1].IsConst() && t.Args[1].Val < uint64(t.W) {
-			return mask(t.W) >> t.Args[1].Val, true
+	case OpZExt:
+		res = s.interval(t.Args[0])
+	case OpIte:
+		a, b := s.interval(t.Args[1]), s.interval(t.Args[2])
+		res = [2]uint64{minU(a[0], b[0]), maxU(a[1], b[1])}
+	case OpAdd:
+		a, b := s.interval(t.Args[0]), s.interval(t.Args[1])
+		hi := a[1] + b[1]
+		if hi >= a[1] && hi <= m { // no wrap
+			res = [2]uint64{a[0] + b[0], hi}
+		}
+	case OpSub:
+		a, b := s.interval(t.Args[0]), s.interval(t.Args[1])
+		if a[0] >= b[1] { // never wraps
+			res = [2]uint64{a[0] - b[1], a[1] - b[0]}
+		}
+	case OpURem:
+		a, b := s.interval(t.Args[0]), s.interval(t.Args[1])
+		if b[0] > 0 {
+			res = [2]uint64{0, minU(a[1], b[1]-1)}
+		} else {
+			res = [2]uint64{0, a[1]}
 		}
 	case OpUDiv:
-		if t.Args[1].IsConst() && t.Args[1].Val > 0 {
-			if u, ok := s.ub(t.Args[0], depth-1); ok {
-				return u / t.Args[1].Val, true
+		a, b := s.interval(t.Args[0]), s.interval(t.Args[1])
+		if b[0] > 0 {
+			res = [2]uint64{a[0] / b[1], a[1] / b[0]}
+		}
+	case OpBAnd:
+		a, b := s.interval(t.Args[0]), s.interval(t.Args[1])
+		res = [2]uint64{0, minU(a[1], b[1])}
+	case OpLShr:
+		a := s.interval(t.Args[0])
+		if t.Args[1].IsConst() && t.Args[1].Val < uint64(t.W) {
+			res = [2]uint64{a[0] >> t.Args[1].Val, a[1] >> t.Args[1].Val}
+		} else {
+			res = [2]uint64{0, a[1]}
+		}
+	case OpExtract:
+		if t.Val == 0 {
+			a := s.interval(t.Args[0])
+			if a[1] <= m {
+				res = a
+			}
+		}
+	case OpUF:
+		if len(t.Args) == 2 {
+			a, b := s.interval(t.Args[0]), s.interval(t.Args[1])
+			switch {
+			case strings.HasPrefix(t.Name, "absrems"), strings.HasPrefix(t.Name, "absdivs"):
+			case strings.HasPrefix(t.Name, "absrem"):
+				// the divisor is non-zero wherever the value is used (division
+				// by zero ends the path)
+				hi := a[1]
+				if b[1] > 0 && b[1]-1 < hi {
+					hi = b[1] - 1
+				}
+				res = [2]uint64{0, hi}
+			case strings.HasPrefix(t.Name, "absdiv"):
+				res = [2]uint64{0, a[1]}
 			}
 		}
 	}
-	return 0, false
+	if k, ok := s.known[t.ID]; ok && k < res[1] {
+		res[1] = k
+		if res[0] > k {
+			res[0] = 0
+		}
+	}
+	s.ivMemo[t.ID] = res
+	return res
+}
+
+// need returns the smallest of 8, 16, 32 bits that holds every value up to
+// hi, or 64.
+func need(hi uint64) int {
+	switch {
+	case hi < 1<<8:
+		return 8
+	case hi < 1<<16:
+		return 16
+	case hi < 1<<32:
+		return 32
+	}
+	return 64
+}
+
+// narrowBin performs op on operands known (by the interval analysis) to be
+// small in a narrower width and zero-extends the result; nil if not
+// applicable. Sound because neither the operands nor the result exceed the
+// narrow width.
+func (s *Store) narrowBin(op Op, a, b *Term) *Term {
+	if !s.Narrow || a.W <= 8 {
+		return nil
+	}
+	ia, ib := s.interval(a), s.interval(b)
+	var k int
+	switch op {
+	case OpAdd:
+		hi := ia[1] + ib[1]
+		if hi < ia[1] {
+			return nil
+		}
+		k = need(hi)
+	case OpSub:
+		if ia[0] < ib[1] {
+			return nil
+		}
+		k = need(ia[1])
+	default:
+		return nil
+	}
+	if k >= a.W {
+		return nil
+	}
+	return s.ZExt(s.Bin(op, s.Extract(a, 0, k), s.Extract(b, 0, k)), a.W)
+}
+
+func (s *Store) narrowPair(a, b *Term) (*Term, *Term, bool) {
+	if !s.Narrow || a.W <= 8 {
+		return a, b, false
+	}
+	ia, ib := s.interval(a), s.interval(b)
+	k := need(maxU(ia[1], ib[1]))
+	if k >= a.W {
+		return a, b, false
+	}
+	return s.Extract(a, 0, k), s.Extract(b, 0, k), true
+}
+
+func minU(a, b uint64) uint64 {
+	if a < b {
+		return a
+	}
+	return b
+}
+func maxU(a, b uint64) uint64 {
+	if a > b {
+		return a
+	}
+	return b
 }
 
 func (s *Store) Add(a, b *Term) *Term  { return s.Bin(OpAdd, a, b) }
@@ -577,20 +815,29 @@ func (s *Store) Cmp(op Op, a, b *Term) *Term {
 			if b.IsConst() && b.Val == 0 {
 				return s.False
 			}
-			if b.IsConst() {
-				if u, ok := s.UpperBound(a); ok && u < b.Val {
-					return s.True
-				}
+			ia, ib := s.interval(a), s.interval(b)
+			if ia[1] < ib[0] {
+				return s.True
+			}
+			if ia[0] >= ib[1] {
+				return s.False
 			}
 		case OpULe:
 			if a.IsConst() && a.Val == 0 {
 				return s.True
 			}
-			if b.IsConst() {
-				if u, ok := s.UpperBound(a); ok && u <= b.Val {
-					return s.True
-				}
+			ia, ib := s.interval(a), s.interval(b)
+			if ia[1] <= ib[0] {
+				return s.True
 			}
+			if ia[0] > ib[1] {
+				return s.False
+			}
+		}
+	}
+	if !s.NoSimp && (op == OpULt || op == OpULe) {
+		if na, nb, ok := s.narrowPair(a, b); ok {
+			return s.Cmp(op, na, nb)
 		}
 	}
 	return s.mk(op, 0, []*Term{a, b}, 0, "")
@@ -662,6 +909,9 @@ func (s *Store) Extract(a *Term, lo, w int) *Term {
 	}
 	if a.Op == OpIte && a.Args[1].IsConst() && a.Args[2].IsConst() {
 		return s.Ite(a.Args[0], s.Extract(a.Args[1], lo, w), s.Extract(a.Args[2], lo, w))
+	}
+	if a.Op == OpExtract {
+		return s.Extract(a.Args[0], lo+int(a.Val), w)
 	}
 	return s.mk(OpExtract, w, []*Term{a}, uint64(lo), "")
 }
@@ -1070,4 +1320,77 @@ func (s *Store) RefineUF(roots ...*Term) []*Term {
 		out = append(out, s.Eq(t, s.mk(op, t.W, []*Term{t.Args[0], t.Args[1]}, 0, "")))
 	}
 	return out
+}
+
+// LemmasUF returns facts about the abstraction-function applications
+// reachable from the roots that hold for the operations they stand for:
+// x rem y < y and <= x, x div y <= x (y != 0), 0*y = 0, 1*y = y.
+func (s *Store) LemmasUF(roots ...*Term) []*Term {
+	seen := map[int]bool{}
+	var out []*Term
+	var stack []*Term
+	stack = append(stack, roots...)
+	for len(stack) > 0 {
+		t := stack[len(stack)-1]
+		stack = stack[:len(stack)-1]
+		if seen[t.ID] {
+			continue
+		}
+		seen[t.ID] = true
+		stack = append(stack, t.Args...)
+		if t.Op != OpUF || len(t.Args) != 2 {
+			continue
+		}
+		x, y := t.Args[0], t.Args[1]
+		zero := s.BV(0, t.W)
+		one := s.BV(1, t.W)
+		switch {
+		case strings.HasPrefix(t.Name, "absrems"), strings.HasPrefix(t.Name, "absdivs"):
+		case strings.HasPrefix(t.Name, "absrem"):
+			out = append(out, s.Implies(s.Ne(y, zero), s.mk(OpULt, 0, []*Term{t, y}, 0, "")))
+			out = append(out, s.mk(OpULe, 0, []*Term{t, x}, 0, ""))
+			out = append(out, s.Implies(s.mk(OpULt, 0, []*Term{x, y}, 0, ""), s.Eq(t, x)))
+		case strings.HasPrefix(t.Name, "absdiv"):
+			out = append(out, s.mk(OpULe, 0, []*Term{t, x}, 0, ""))
+			out = append(out, s.Implies(s.Eq(y, one), s.Eq(t, x)))
+		case strings.HasPrefix(t.Name, "absmul"):
+			out = append(out, s.Implies(s.Or(s.Eq(x, zero), s.Eq(y, zero)), s.Eq(t, zero)))
+			out = append(out, s.Implies(s.Eq(x, one), s.Eq(t, y)))
+			out = append(out, s.Implies(s.Eq(y, one), s.Eq(t, x)))
+		}
+	}
+	return out
+}
+
+// remSub builds a - c for the compare-and-subtract form of a remainder (the
+// subtraction is only selected when a >= c).
+func (s *Store) remSub(a, c *Term) *Term {
+	if s.Narrow && a.W > 8 {
+		ia := s.interval(a)
+		k := need(ia[1])
+		if k < a.W {
+			return s.ZExt(s.mk(OpSub, k, []*Term{s.Extract(a, 0, k), s.BV(c.Val, k)}, 0, ""), a.W)
+		}
+	}
+	return s.mk(OpSub, a.W, []*Term{a, c}, 0, "")
+}
+
+// bounded records a known upper bound of a term built by the store itself
+// (the result of x % c is below c).
+func (s *Store) bounded(t *Term, hi uint64) *Term {
+	if t.Op == OpConst {
+		return t
+	}
+	if s.known == nil {
+		s.known = map[int]uint64{}
+	}
+	if cur, ok := s.known[t.ID]; !ok || hi < cur {
+		s.known[t.ID] = hi
+		s.ivMemo = nil
+	}
+	// the bound also holds for the narrow term under a zero extension
+	if t.Op == OpZExt {
+		s.bounded(t.Args[0], hi)
+	}
+	return t
 }
